@@ -2,8 +2,8 @@
   Driver family `blk` (C13): the blocking event machine `Ferrous.Blk`.
 
   One session = one line stream.  Keys and elements travel as lower-case hex (`-` = empty).
-    cfg <npe> <wap> <uas> <rit>        -> ok        quirk switches (0/1): notifyPerElement wakeAtPush
-                                                   unregisterAllOnServe refuseBlockingInTx; resets the state
+    cfg <npe> <wap> <uas> <rit> <ddk>  -> ok        quirk switches (0/1): notifyPerElement wakeAtPush
+                                                   unregisterAllOnServe refuseBlockingInTx dedupKeys; resets the state
     reset                              -> ok
     ev wakeups                         -> <A> <tags> <outs>
     ev timeouts <now>                  -> <A> <tags> <outs>
@@ -23,6 +23,17 @@
          stranded asked (conn@key) blocked on a non-empty key while the wake queue is empty (NoStrandedClient)
          leftover asked conns that are not blocked but named by the registry or the wake queue (NoLeftoverRegistration)
          unreg    asked conns that are blocked but in no queue while the wake queue is empty (RegistryIffBlocked, ←)
+
+  Registry / wake-queue part alone (same lines answered by harness/src/bin/impl_blk.rs from the real
+  `BlockingManager`); the state is the machine's, registration goes through `dataCmd`, the scan through `step`:
+    rnew                               -> ok
+    rreg <c> <L|R> <k|k…> <inf|past|future> -> ok    (`past` = deadline 1, `future` = 10^9; the scan runs at 1000)
+    rnotify <k>                        -> ok
+    rhas <k>                           -> 0|1
+    rwake                              -> c@k@op,…|.   the first `wakeBatch` requests, removed from the queue
+    runreg <c>                         -> ok
+    rexpire                            -> c,c,…|.      connections answered nil by `step (.timeouts 1000)`, sorted, de-duplicated
+    rdump                              -> reg=k:c+c;… wq=<n>
 -/
 import FerrousSpec.Drv.Util
 import FerrousSpec.Model.Blocking
@@ -99,13 +110,17 @@ def parseNatList (s : String) : Option (List Nat) :=
   if s == "." then some [] else (s.splitOn "|").mapM (·.toNat?)
 
 /-- keys of the registry in order of first appearance -/
-def regKeys (reg : List (Key × Waiter)) : List Key :=
+def keysOfReg (reg : List (Key × Waiter)) : List Key :=
   reg.foldl (fun acc e => if acc.contains e.1 then acc else acc ++ [e.1]) []
 
 def showReg (reg : List (Key × Waiter)) : String :=
-  joinOr ";" ((regKeys reg).map fun k =>
+  joinOr ";" ((keysOfReg reg).map fun k =>
     toHex k ++ ":" ++ String.intercalate "+" ((reg.filter (keyIs k)).map fun e =>
       toString e.2.conn ++ "~" ++ (match e.2.deadline with | none => "inf" | some d => toString d)))
+
+def showRegPlain (reg : List (Key × Waiter)) : String :=
+  joinOr ";" ((keysOfReg reg).map fun k =>
+    toHex k ++ ":" ++ String.intercalate "+" ((reg.filter (keyIs k)).map fun e => toString e.2.conn))
 
 def showConn (s : State) (c : Conn) : String :=
   let cs := s.conns c
@@ -173,10 +188,10 @@ def eventTags (q : Quirks) (s : State) : Event → List String
 
 def step (ss : Sess) (ws : List String) : Sess × String :=
   match ws with
-  | ["cfg", a, b, c, d] =>
-    match readBool a, readBool b, readBool c, readBool d with
-    | some a, some b, some c, some d => ({ q := ⟨a, b, c, d⟩, s := {} }, "ok")
-    | _, _, _, _ => (ss, "bad-op")
+  | ["cfg", a, b, c, d, e] =>
+    match readBool a, readBool b, readBool c, readBool d, readBool e with
+    | some a, some b, some c, some d, some e => ({ q := ⟨a, b, c, d, e⟩, s := {} }, "ok")
+    | _, _, _, _, _ => (ss, "bad-op")
   | ["reset"] => ({ ss with s := {} }, "ok")
   | "ev" :: rest =>
     match readEvent rest with
@@ -186,6 +201,35 @@ def step (ss : Sess) (ws : List String) : Sess × String :=
       let s' := Blk.step ss.q ss.s e
       let newOut := s'.out.drop ss.s.out.length
       ({ ss with s := s' }, (if ok then "1 " else "0 ") ++ joinOr "," (eventTags ss.q ss.s e).eraseDups ++ " " ++ showOuts newOut)
+  | ["rnew"] => ({ ss with s := {} }, "ok")
+  | ["rreg", c, o, ks, dl] =>
+    match c.toNat?, readOp o, parseHexList ks, (match dl with | "inf" => some 0 | "past" => some 1 | "future" => some 1000000000 | _ => none) with
+    | some c, some op, some keys, some t =>
+      if keys.isEmpty then (ss, "ok")
+      else ({ ss with s := dataCmd ss.q 0 c c { ss.s with store := [] } (.bpop op keys t) }, "ok")
+    | _, _, _, _ => (ss, "bad-op")
+  | ["rnotify", k] =>
+    match ofHex k with
+    | some k => ({ ss with s := notify k ss.s }, "ok")
+    | none => (ss, "bad-op")
+  | ["rhas", k] =>
+    match ofHex k with
+    | some k => (ss, if ss.s.registry.any (keyIs k) then "1" else "0")
+    | none => (ss, "bad-op")
+  | ["rwake"] =>
+    let ws := ss.s.wakeQ.take wakeBatch
+    ({ ss with s := { ss.s with wakeQ := ss.s.wakeQ.drop wakeBatch } },
+      joinOr "," (ws.map fun w => s!"{w.conn}@{toHex w.key}@{showOp w.op}"))
+  | ["runreg", c] =>
+    match c.toNat? with
+    | some c => ({ ss with s := { ss.s with registry := ss.s.registry.filter fun x => x.2.conn != c } }, "ok")
+    | none => (ss, "bad-op")
+  | ["rexpire"] =>
+    let s' := Blk.step ss.q ss.s (.timeouts 1000)
+    let ids := ((s'.out.drop ss.s.out.length).filterMap fun o => if o.2 == Reply.nilArr then some o.1 else none).eraseDups
+    let sorted := ids.toArray.qsort (· < ·) |>.toList
+    ({ ss with s := s' }, joinOr "," (sorted.map toString))
+  | ["rdump"] => (ss, s!"reg={showRegPlain ss.s.registry} wq={ss.s.wakeQ.length}")
   | ["dump", cs, ks] =>
     match parseNatList cs, parseHexList ks with
     | some cs, some ks => (ss, dump ss.s cs ks)
